@@ -56,6 +56,10 @@ CLAIMED = {
                     "polars: rows kept iff every row-aligned check output is true, for all frames and <= 3 errors; the call-site precondition (only row-attributable errors) "
                     "is refuted and listed.",
             "note": COMMON_NOTE + "MultiIndex label round trip through str/eval and reshape_failure_cases' 'index' column are not under contract."},
+    "C12": {"text": "YAML/JSON leg: the live serialisers and deserialisers are executed as composite round trips (through an assumed dump+load transport that is the identity on "
+                    "the JSON domain) and proved attribute by attribute for check statistics/options of all 15 built-in checks, components and whole schemas; script leg: every "
+                    "template slot is proved to evaluate to the attribute it is named after (text theory); structural obligations on templates and keys.",
+            "note": COMMON_NOTE + "yaml/json/black/exec are assumed (31 theory axioms replayed on the real libraries); schema shapes 0-2 columns, no index / Index / MultiIndex; from_yaml's file handling is a bounded stand-in."},
     "C13": {"text": "The 14 check strategies are proved against the C01 spec functions (support of the result inside dtype domain and check meaning, chained or base) for "
                     "int64/float64/str; field_element_strategy's chaining loop with the invariant support(elements) within the intersection of the checks seen; flag flow of the "
                     "series/index/column assembly and schema strategy entry points; structural dispatcher table.",
